@@ -84,8 +84,12 @@ fn gen_decl(rng: &mut Rng, types: u64, density: u64) -> (Vec<usize>, Vec<usize>)
     (r, w)
 }
 
-fn gen_ops(rng: &mut Rng, maxn: usize) -> (Vec<Op>, String) {
-    let shape = rng.below(100);
+fn gen_ops(rng: &mut Rng, maxn: usize, allow_big: bool) -> (Vec<Op>, String) {
+    let mut shape = rng.below(100);
+    if shape == 99 && !allow_big {
+        // the > 256-function shapes are for the builder checks; run sessions on them cost minutes
+        shape = 98;
+    }
     let mut ops = vec![];
     let types = 2 + rng.below(4);
     let density = *rng.pick(&[0u64, 20, 40, 60, 90]);
@@ -274,6 +278,43 @@ fn gen_ops(rng: &mut Rng, maxn: usize) -> (Vec<Op>, String) {
         for m in 1..=k {
             ops.push(Op::Edge { k: kind(rng), a: m, b: k + 1 });
         }
+    } else if shape == 99 {
+        // big: more than 256 functions (indices, counters and ranks that do not fit a byte)
+        let n = 257 + rng.below(44) as usize;
+        if rng.chance(50) {
+            // a spine of n-1 edges (ranks beyond 255) with a few shortcuts and side leaves,
+            // functions inserted root-first or leaf-first
+            name = "bigchain";
+            add_fns(rng, &mut ops, n, 0);
+            let leaf_first = rng.chance(40);
+            let id = |i: usize| if leaf_first { n - 1 - i } else { i };
+            let spine = n - 8;
+            for i in 0..spine - 1 {
+                ops.push(Op::Edge { k: kind(rng), a: id(i), b: id(i + 1) });
+            }
+            for _ in 0..6 {
+                let a = rng.below(spine as u64 - 2) as usize;
+                let b = a + 2 + rng.below((spine - a - 2) as u64) as usize;
+                ops.push(Op::Edge { k: kind(rng), a: id(a), b: id(b) });
+            }
+            for l in spine..n {
+                let a = rng.below(spine as u64) as usize;
+                ops.push(Op::Edge { k: kind(rng), a: id(a), b: id(l) });
+            }
+        } else {
+            // no logic edges at all, most functions write the same type: one long chain of data edges
+            name = "bigwriters";
+            for _ in 0..n {
+                let t = rng.below(2) as usize;
+                let (r, w) = match rng.below(10) { 0 => (vec![], vec![]), 1 | 2 => (vec![t], vec![]), _ => (vec![], vec![t]) };
+                ops.push(Op::Fn { tag: rng.below(3) as u32, r, w });
+            }
+            for _ in 0..rng.below(4) {
+                let a = rng.below(n as u64) as usize;
+                let b = rng.below(n as u64) as usize;
+                ops.push(Op::Edge { k: kind(rng), a: a.min(b), b: a.max(b) });
+            }
+        }
     } else {
         // wide: many roots (more than any small constant channel capacity), few edges, little conflict
         name = "wide";
@@ -387,6 +428,8 @@ struct GenChooser {
     steps: usize,
     burst: bool, // complete / drop everything that is in flight at once
     abort_at: Option<usize>, // history mode: abandon the run at this step
+    late_fail: Option<usize>, // bursts: the first `m` completions of a burst are ok, later ones fail often
+    hold_back: usize, // bursts: this many in-flight functions / live FnRefs are left out of the burst
 }
 
 impl GenChooser {
@@ -409,7 +452,24 @@ impl GenChooser {
             }
         }
         for (i, r) in v.runs.iter().enumerate() {
+            if r.not_started {
+                // a late second run: start it at a random point, at the latest once the first run is over
+                let first_over = v.runs.iter().enumerate().all(|(j, o)| j == i || o.finished);
+                if first_over || rng.chance(25) {
+                    batch.push(Act::Start { run: i });
+                }
+                any_live = true;
+                continue;
+            }
             if r.finished {
+                // a stream that was dropped / has ended with `FnRef`s still alive: they are dropped one by
+                // one while the other run goes on
+                if r.cfg.is_stream() && !r.live.is_empty() && v.runs.iter().any(|o| !o.finished) {
+                    if rng.chance(35) {
+                        let f = *rng.pick(&r.live);
+                        batch.push(Act::Drop { run: i, f });
+                    }
+                }
                 continue;
             }
             any_live = true;
@@ -424,6 +484,13 @@ impl GenChooser {
                     continue;
                 }
                 let last = r.last_poll.clone().unwrap_or_default();
+                // while a late second run is still to be created: often give the stream up (or let it end)
+                // with `FnRef`s still alive — they are dropped later, during the second run
+                let other_late = v.runs.iter().any(|o| o.not_started);
+                if other_late && !r.live.is_empty() && rng.chance(if last == "none" { 60 } else { 30 }) {
+                    batch.push(Act::DropStream { run: i });
+                    continue;
+                }
                 if last == "none" || last == "panic" || last == "drained" {
                     // drop what is left in random order, poll once more sometimes, then stop
                     if !r.live.is_empty() {
@@ -459,7 +526,7 @@ impl GenChooser {
                             batch.push(Act::Poll { run: i });
                         }
                     } else {
-                        let k = if self.burst { r.live.len() } else { 1 + rng.below(3.min(r.live.len() as u64)) as usize };
+                        let k = if self.burst { r.live.len().saturating_sub(self.hold_back).max(1) } else { 1 + rng.below(3.min(r.live.len() as u64)) as usize };
                         let mut live = r.live.clone();
                         for _ in 0..k {
                             let j = rng.below(live.len() as u64) as usize;
@@ -523,17 +590,20 @@ impl GenChooser {
                 continue;
             }
             let k = if self.burst {
-                r.inflight.len()
+                r.inflight.len().saturating_sub(self.hold_back).max(1)
             } else if rng.chance(70) {
                 1
             } else {
                 1 + rng.below(3.min(r.inflight.len() as u64)) as usize
             };
             let mut infl = r.inflight.clone();
-            for _ in 0..k.min(infl.len()) {
+            for pos in 0..k.min(infl.len()) {
                 let j = rng.below(infl.len() as u64) as usize;
                 let f = infl.remove(j);
-                let ok = !(r.cfg.is_try() && rng.chance(15));
+                let ok = match (self.burst, self.late_fail) {
+                    (true, Some(m)) => !(r.cfg.is_try() && pos >= m && rng.chance(40)),
+                    _ => !(r.cfg.is_try() && rng.chance(15)),
+                };
                 let intr = self.midpoll_intr && !r.intr_sent && rng.chance(25);
                 batch.push(Act::Open { run: i, f, ok, intr });
             }
@@ -551,6 +621,7 @@ struct Session {
     coop: bool,
     auto: u8,
     shared: bool, // the run's InterruptibilityState is the case-wide one, handed over with reborrow()
+    late: bool,   // pair sessions: the second run is created later, by a `start:1` action
     script: Option<Vec<Vec<Act>>>, // None = generate
 }
 
@@ -584,6 +655,8 @@ fn run_case(
             return;
         }
     };
+    let mut g_other: Option<fn_graph::FnGraph<TestFn>> = None;
+    let n_fns_all = ops.iter().filter(|x| matches!(x, Op::Fn { .. })).count();
     // B-eq: same ops again, and a perturbed list
     if let Some((alt_ops, what)) = alt {
         out.push(format!("eqwith pert={}", what));
@@ -594,15 +667,37 @@ fn run_case(
         out.extend(res2.into_iter().map(|l| l.replacen("res ", "res2 ", 1)));
         let (g2, _) = build(b2);
         match g2 {
-            Some(g2) => out.push(format!("eqres {} ranks_eq={}", g == g2, g.ranks() == g2.ranks())),
+            Some(g2) => {
+                out.push(format!("eqres {} ranks_eq={}", g == g2, g.ranks() == g2.ranks()));
+                g_other = Some(g2);
+            }
             None => out.push("eqres panic".into()),
         }
     }
     out.extend(seq_lines(&mut g, fails));
+    // the same sequential calls on a copy: `clone()`, or — when a second graph is at hand —
+    // `clone_from` over a value that held a different graph
+    {
+        let mut h = match &g_other {
+            Some(o) => {
+                let mut h = o.clone();
+                h.clone_from(&g);
+                h
+            }
+            None if n_fns_all % 2 == 0 => g.clone(),
+            None => {
+                let mut h = fn_graph::FnGraph::new();
+                h.clone_from(&g);
+                h
+            }
+        };
+        out.extend(seq_lines(&mut h, fails));
+    }
     #[cfg(feature = "intr")]
     out.push(ginfo_line(&g));
     let n_fns = ops.iter().filter(|x| matches!(x, Op::Fn { .. })).count();
     let mut shared_intr: Option<SharedIntr> = None;
+    let n_sessions = sessions.len();
     for s in sessions {
         if s.shared && shared_intr.is_none() {
             shared_intr = Some(SharedIntr::new(s.cfgs[0].strat));
@@ -611,15 +706,24 @@ fn run_case(
         match s.script {
             Some(script) => {
                 let mut it = script.into_iter();
-                session(&mut g, &s.cfgs, s.coop, s.auto, sh, out, &mut |_v, _step| it.next());
+                session(&mut g, &s.cfgs, s.coop, s.auto, s.late, sh, out, &mut |_v, _step| it.next());
             }
             None => {
                 let burst = rng.chance(if n_fns >= 60 { 60 } else { 22 });
                 let abort_at = if allow_abort && rng.chance(35) { Some(1 + rng.below(4) as usize) } else { None };
-                let mut ch = GenChooser { rng: Rng(rng.next() | 1), useless: 0, allow_abort, midpoll_intr: midpoll, steps: 0, burst, abort_at };
-                session(&mut g, &s.cfgs, s.coop, s.auto, sh, out, &mut |v, step| ch.choose(v, step));
+                // bursts that straddle the constants a "fast path" might hide (16, 32, 64, 128): the first
+                // failure right after that many successes; a burst that leaves one or two functions out
+                let late_fail = if burst && rng.chance(40) { Some(*rng.pick(&[4usize, 8, 15, 16, 17, 31, 32, 33, 63, 64, 65, 127, 128])) } else { None };
+                let hold_back = if burst && rng.chance(40) { 1 + rng.below(2) as usize } else { 0 };
+                let mut ch = GenChooser { rng: Rng(rng.next() | 1), useless: 0, allow_abort, midpoll_intr: midpoll, steps: 0, burst, abort_at, late_fail, hold_back };
+                session(&mut g, &s.cfgs, s.coop, s.auto, s.late, sh, out, &mut |v, step| ch.choose(v, step));
             }
         }
+    }
+    // a history ends with the sequential calls once more (a sequential run after any earlier runs)
+    if n_sessions >= 2 {
+        out.push("ctx hist".into());
+        out.extend(seq_lines(&mut g, fails));
     }
     out.push("end".into());
 }
@@ -633,7 +737,7 @@ fn gen_main(seed: u64, count: usize, kinds: &str, maxn: usize) {
     let mut lock = stdout.lock();
     for c in 0..count {
         let mut out = vec![];
-        let (ops, shape) = gen_ops(&mut rng, maxn);
+        let (ops, shape) = gen_ops(&mut rng, maxn, !has("run") && !has("stream"));
         let n = ops.iter().filter(|x| matches!(x, Op::Fn { .. })).count();
         let alt = if has("eq") { Some(perturb(&mut rng, &ops)) } else { None };
         let fails: Vec<usize> = (0..n).filter(|_| rng.chance(15)).collect();
@@ -667,9 +771,12 @@ fn gen_main(seed: u64, count: usize, kinds: &str, maxn: usize) {
                         b.limit = None;
                     }
                 }
-                sessions.push(Session { cfgs: vec![a, b], coop: rng.chance(50), auto: 0, shared: false, script: None });
+                // in a third of the pair sessions the second run is created later (`start:1`), possibly
+                // after the first one was dropped with `FnRef`s still alive
+                let late = rng.chance(33);
+                sessions.push(Session { cfgs: vec![a, b], coop: rng.chance(50), auto: 0, shared: false, late, script: None });
             } else if has("stream") && (!has("run") || pick < 35) {
-                { let c = gen_runcfg(&mut rng, true, false); sessions.push(Session { cfgs: vec![c], coop: rng.chance(50), auto: 0, shared: false, script: None }); }
+                { let c = gen_runcfg(&mut rng, true, false); sessions.push(Session { cfgs: vec![c], coop: rng.chance(50), auto: 0, shared: false, late: false, script: None }); }
             } else if has("run") {
                 { let mut c = gen_runcfg(&mut rng, false, false);
                   if hist {
@@ -683,7 +790,7 @@ fn gen_main(seed: u64, count: usize, kinds: &str, maxn: usize) {
                           }
                       }
                       prev_api = Some(c.api.clone());
-                  } let auto = if rng.chance(12) { 1 + rng.below(3) as u8 } else { 0 }; let shared = case_shared.is_some() && c.has_opts(); if let (true, Some(st)) = (shared, case_shared) { c.strat = st; } sessions.push(Session { cfgs: vec![c], coop: rng.chance(50), auto, shared, script: None }); }
+                  } let auto = if rng.chance(12) { 1 + rng.below(3) as u8 } else { 0 }; let shared = case_shared.is_some() && c.has_opts(); if let (true, Some(st)) = (shared, case_shared) { c.strat = st; } sessions.push(Session { cfgs: vec![c], coop: rng.chance(50), auto, shared, late: false, script: None }); }
             }
         }
         let midpoll = has("midpoll");
@@ -740,7 +847,7 @@ fn replay_main(path: &str) {
                     fails = parse_csv(f);
                 }
             } else if l.starts_with("session") {
-                sessions.push(Session { cfgs: vec![], coop: l.contains("coop=1"), auto: l.split(' ').find_map(|t| t.strip_prefix("auto=")).and_then(|v| v.parse().ok()).unwrap_or(0), shared: l.contains("shared=1"), script: Some(vec![]) });
+                sessions.push(Session { cfgs: vec![], coop: l.contains("coop=1"), auto: l.split(' ').find_map(|t| t.strip_prefix("auto=")).and_then(|v| v.parse().ok()).unwrap_or(0), shared: l.contains("shared=1"), late: l.contains("late=1"), script: Some(vec![]) });
             } else if l.starts_with("run ") {
                 if let (Some(s), Some((_, cfg))) = (sessions.last_mut(), RunCfg::parse(l)) {
                     s.cfgs.push(cfg);
@@ -1053,7 +1160,7 @@ fn enum_main(maxn: usize, part: usize, parts: usize, streams: bool) {
                 let (g, built) = build_for(&cid, ops, b);
                 out.push(built);
                 if let Some(mut g) = g {
-                    session(&mut g, std::slice::from_ref(cfg), (gi + ci) % 2 == 1, 0, None, &mut out, &mut |v, step| ch.choose(v, step));
+                    session(&mut g, std::slice::from_ref(cfg), (gi + ci) % 2 == 1, 0, false, None, &mut out, &mut |v, step| ch.choose(v, step));
                 }
                 out.push("end".into());
                 for l in out {
@@ -1199,7 +1306,7 @@ fn sweep_main(sizes: &str, stride: usize) {
         while k <= n {
             let api = apis[(k / stride.max(1)) % apis.len()].to_string();
             let cfg = RunCfg { api, rev: k % 2 == 0, limit: None, strat: Strat::PollN(k as u64), incl: k % 3 != 0, ord: (k % 6) as u8 };
-            sessions.push(Session { cfgs: vec![cfg], coop: true, auto: 1 + ((k / 7) % 3) as u8, shared: false, script: Some(vec![vec![Act::Intr { run: 0 }], vec![Act::Poll { run: 0 }], vec![Act::Poll { run: 0 }], vec![Act::Abort { run: 0 }]]) });
+            sessions.push(Session { cfgs: vec![cfg], coop: true, auto: 1 + ((k / 7) % 3) as u8, shared: false, late: false, script: Some(vec![vec![Act::Intr { run: 0 }], vec![Act::Poll { run: 0 }], vec![Act::Poll { run: 0 }], vec![Act::Abort { run: 0 }]]) });
             k += stride.max(1);
         }
         // tight stream consumers under the budget: poll-and-drop loops in one budget window
@@ -1210,7 +1317,7 @@ fn sweep_main(sizes: &str, stride: usize) {
                 script.push(vec![Act::Drain { run: 0 }]);
             }
             script.push(vec![Act::DropStream { run: 0 }]);
-            sessions.push(Session { cfgs: vec![cfg], coop: true, auto: 0, shared: false, script: Some(script) });
+            sessions.push(Session { cfgs: vec![cfg], coop: true, auto: 0, shared: false, late: false, script: Some(script) });
         }
         let mut out = vec![];
         let mut rng = Rng(1);
